@@ -53,6 +53,15 @@ struct Impl {
     ///
     /// This is used to avoid repeated lookups for the same keyspace.
     keyspaces: DashMap<StableTypeID, Keyspace>,
+
+    /// Held exclusively while a batch is being applied and shared while a
+    /// reader opens its snapshot.
+    ///
+    /// A snapshot must not be opened in the middle of a batch: fjall can move
+    /// its visible sequence number past a batch that is still being applied
+    /// (background maintenance publishes a later sequence number), so such a
+    /// snapshot would see the first writes of the batch without the last ones.
+    commit_lock: parking_lot::RwLock<()>,
 }
 
 impl std::fmt::Debug for Impl {
@@ -118,7 +127,12 @@ impl Fjall {
 
         let db = fjall::Database::open(config)?;
 
-        Ok(Self(Arc::new(Impl { db, plugin, keyspaces: DashMap::new() })))
+        Ok(Self(Arc::new(Impl {
+            db,
+            plugin,
+            keyspaces: DashMap::new(),
+            commit_lock: parking_lot::RwLock::new(()),
+        })))
     }
 
     /// Creates a factory for opening or creating a `Fjall` database.
@@ -129,6 +143,13 @@ impl Fjall {
 }
 
 impl Impl {
+    /// Opens a snapshot between two batches (never in the middle of one).
+    fn snapshot(&self) -> fjall::Snapshot {
+        let _between_batches = self.commit_lock.read();
+
+        self.db.snapshot()
+    }
+
     /// Generates a keyspace name from a stable type ID.
     fn keyspace_name_from_id(id: StableTypeID, kind: ColumnKind) -> String {
         format!(
@@ -352,6 +373,8 @@ impl WriteBatch for FjallWriteBatch {
     fn commit(self) {
         let batch = self.batch.durability(None);
 
+        let _applying = self.db.commit_lock.write();
+
         batch.commit().expect("write should not fail");
     }
 
@@ -403,7 +426,7 @@ impl KvDatabase for Fjall {
         // read through a snapshot: a plain keyspace read can observe a batch
         // that is still being applied (fjall inserts the items of a batch one
         // by one)
-        match self.0.db.snapshot().get(&keyspace, &buffer) {
+        match self.0.snapshot().get(&keyspace, &buffer) {
             Ok(Some(value_bytes)) => {
                 let mut decoder = PostcardDecoder::new(std::io::Cursor::new(
                     value_bytes.as_ref(),
@@ -433,11 +456,8 @@ impl KvDatabase for Fjall {
         self.0.encode_value_length_prefixed(key, &mut prefix_buffer);
 
         // Use prefix iterator
-        let iter = self
-            .0
-            .db
-            .snapshot()
-            .prefix(&keyspace, prefix_buffer.as_slice());
+        let iter =
+            self.0.snapshot().prefix(&keyspace, prefix_buffer.as_slice());
 
         ScanMemberIterator {
             iter,
